@@ -195,7 +195,11 @@ func opMerge(r *rand.Rand, n int) {
 			emit(op, "err "+err.Error())
 			continue
 		}
-		emit(op, canonResponse(m.(*listoffsets.Response)))
+		if res, ok := m.(*listoffsets.Response); ok && res != nil {
+			emit(op, canonResponse(res))
+		} else {
+			emit(op, "nil")
+		}
 	}
 }
 
